@@ -21,6 +21,7 @@ type gchan struct {
 	// rendezvous support (goroutine mode)
 	sendq []*waiter
 	recvq []*waiter
+	recvWaiting int // receivers parked on this channel (makes an unbuffered select-send ready)
 }
 
 type waiter struct {
